@@ -1,8 +1,13 @@
-// pipeline.cc — full-pipeline harnesses (one binary per MODE and SCENARIO).
+// pipeline.cc — full-pipeline harnesses: one module per MODE (which property's assertions are active) and SCENARIO (graph shape).
+//   MODE_HISTORY  histories of invocations with user operations in between                 C01 C02 C03 C04 C10 C11
+//   MODE_FAIL     one invocation with failing commands, -k, exit codes                      C05
+//   MODE_SCHED    one invocation: -j / pools / jobserver tokens / spawn failures            C06
+//   MODE_CRASH    a build killed at a symbolic persistence event or interrupted, recovery   C07
 #include "scenarios.h"
 #ifndef HISTORY
 #define HISTORY 2
 #endif
+#define ACTIVE(x) (defined(x))
 #ifdef CHECK_C01
 #define A01(c, m) VERIF_ASSERT(c, m)
 #else
@@ -13,7 +18,16 @@
 #else
 #define A02(c, m) (void)0
 #endif
+#ifdef CHECK_C03
+#define A03(c, m) VERIF_ASSERT(c, m)
+#else
+#define A03(c, m) (void)0
+#endif
 
+static void load_reference() {     // the declared-input view of the current manifest, before an invocation
+  State st; SymDisk d; std::string err; ManifestParser p(&st, &d);
+  if (p.Load("build.ninja", &err)) build_reference(&st);
+}
 static void user_operations(const Scenario* sc) {
   // any subset of the sources (incl. headers only known through depfiles) is edited
   std::vector<std::string> src = split_words(sc->sources);
@@ -27,7 +41,209 @@ static void user_operations(const Scenario* sc) {
   int nvar = 1; while (nvar < 3 && sc->manifest[nvar]) nvar++;
   if (nvar > 1) { g_manifest_variant = verif_choice("manifest_variant", nvar); }
 }
+static void observe(const InvocationResult& r) {
+  verif_obs(r.rc); verif_obs((long)r.started.size());
+  for (size_t i = 0; i < r.started.size(); i++) verif_obs(r.started[i]);
+#ifdef DEBUG_EVENTS
+  printf("inv rc=%d up_to_date=%d err=%s\n", r.rc, r.up_to_date, r.err.c_str());
+  for (size_t i = 0; i < r.events.size(); i++) printf("  %s\n", r.events[i].c_str());
+  for (size_t i = 0; i < g_tree->files.size(); i++) printf("  file %s exists=%d mtime=%ld content=%ld\n", g_tree->files[i].name.c_str(), g_tree->files[i].exists, (long)g_tree->files[i].mtime, g_tree->files[i].content);
+#endif
+}
+// everything built once, sequentially, no faults: a reachable starting state
+static void full_build(const Scenario* sc) {
+  InvocationOpts o; o.targets = split_words(sc->targets); o.run.parallelism = 1;
+  InvocationResult r = invoke(o);
+  VERIF_ASSERT(r.parsed && r.added && r.rc == 0, "set-up: the initial full build succeeds");
+}
+static bool event_before(const std::vector<std::string>& ev, const std::string& a, const std::string& b) {
+  int ia = -1, ib = -1; for (size_t i = 0; i < ev.size(); i++) { if (ev[i] == a && ia < 0) ia = (int)i; if (ev[i] == b && ib < 0) ib = (int)i; }
+  return ia >= 0 && (ib < 0 || ia < ib);
+}
 
+#if defined(MODE_FAIL)
+// ------------------------------------------------------------------------------------------------ C05
+extern "C" int harness_main() {
+  ir2c_global_ctors();
+  const Scenario* sc = &kScenarios[SCENARIO];
+  init_tree(sc);
+#ifdef FROM_BUILT
+  full_build(sc); user_operations(sc);
+#endif
+  // a declared source may be missing
+  std::vector<std::string> src = split_words(sc->sources);
+  int missing = verif_choice("missing_source", (int)src.size() + 1);
+  if (missing > 0) g_tree->remove(src[missing - 1]);
+  InvocationOpts o; o.targets = symbolic_targets(sc, "request_target");
+  o.run.parallelism = 1 + verif_choice("jobs_minus_1", 3);
+  int k = verif_choice("keep_going", 3);             // -k 1, -k 2, -k 0 (unlimited)
+  o.failures_allowed = k == 2 ? 1000000 : k + 1;
+  o.run.may_fail = true; o.run.failed_touch = true; o.run.sym_exit_code = true;
+  load_reference();
+  // which log records exist before
+  InvocationResult r = invoke(o);
+  VERIF_ASSERT(r.parsed, "the scenario manifest parses");
+  observe(r);
+  std::vector<std::string> cl; for (size_t i = 0; i < o.targets.size(); i++) closure(o.targets[i], &cl);
+  if (missing > 0) {
+    bool needed = false; for (size_t i = 0; i < cl.size(); i++) needed = needed || cl[i] == src[missing - 1];
+    // is it read as a declared (manifest) input of a needed statement?  (an extra, discovered read that vanished only forces a rebuild)
+    bool declared = false;
+    for (size_t i = 0; i < g_ref.size(); i++) { bool edge_needed = false; for (size_t c = 0; c < cl.size(); c++) for (size_t q = 0; q < g_ref[i].outs.size(); q++) edge_needed = edge_needed || cl[c] == g_ref[i].outs[q];
+      if (!edge_needed) continue; const CmdSpec* s = spec_for(g_ref[i].outs[0]); std::vector<std::string> extra = split_words(s ? s->extra_reads : "");
+      for (size_t q = 0; q < g_ref[i].reads.size(); q++) { bool is_extra = false; for (size_t z = 0; z < extra.size(); z++) is_extra = is_extra || extra[z] == g_ref[i].reads[q]; if (g_ref[i].reads[q] == src[missing - 1] && !is_extra) declared = true; }
+      for (size_t q = 0; q < g_ref[i].order_only.size(); q++) if (g_ref[i].order_only[q] == src[missing - 1]) declared = true; }
+#ifndef FROM_BUILT
+    if (needed && declared) {
+      VERIF_ASSERT(!r.added && r.started.empty() && r.err.find("missing and no known rule to make it") != std::string::npos, "C05: a missing declared source without a rule is reported before any command runs");
+      verif_reach("missing-source");
+    }
+#endif
+    return 0;
+  }
+  if (!r.added) return 0;
+  // (i) nothing that depends on a failed command is started
+  bool contained = true;
+  for (size_t i = 0; i < g_ref.size(); i++) {
+    if (!has_id(r.started, g_ref[i].ordinal)) continue;
+    std::vector<std::string> deps;             // everything this statement transitively depends on
+    for (size_t q = 0; q < g_ref[i].reads.size(); q++) closure(g_ref[i].reads[q], &deps);
+    for (size_t q = 0; q < g_ref[i].order_only.size(); q++) closure(g_ref[i].order_only[q], &deps);
+    for (size_t d = 0; d < deps.size(); d++) { const RefEdge* p = ref_producer(deps[d]); if (p && !p->phony && p != &g_ref[i] && has_id(r.failed, p->ordinal) && event_before(r.events, "fail " + p->outs[0], "start " + g_ref[i].outs[0])) contained = false; }
+  }
+  VERIF_ASSERT(contained, "C05: nothing that depends on a failed command is started");
+  // (ii) exit status taken from a failed command, message by -k
+  if (!r.failed.empty()) {
+    bool from_failed = false; for (size_t i = 0; i < r.exit_codes.size(); i++) from_failed = from_failed || r.exit_codes[i] == r.rc;
+    VERIF_ASSERT(r.rc != 0 && from_failed, "C05: ninja exits with the non-zero status of a failed command");
+    VERIF_ASSERT(r.err == "subcommand failed" || r.err == "subcommands failed" || r.err == "cannot make progress due to previous errors", "C05: a failed build reports why it stopped");
+    verif_reach("failed");
+  } else { VERIF_ASSERT(r.rc == 0, "C05: without a failing command the build succeeds"); verif_reach("all-succeeded"); }
+  // (iv) -k N: nothing new starts after the N-th failure, running commands are still reaped and recorded
+  int nfail = 0; bool started_after_budget = false;
+  for (size_t i = 0; i < r.events.size(); i++) { if (r.events[i].compare(0, 5, "fail ") == 0) nfail++; else if (r.events[i].compare(0, 6, "start ") == 0 && nfail >= o.failures_allowed) started_after_budget = true; }
+  VERIF_ASSERT(!started_after_budget, "C05: after N failures (-k N) nothing new is started");
+  VERIF_ASSERT((int)r.started.size() == (int)r.finished_ok.size() + (int)r.failed.size(), "C05: every command that was running is waited for");
+#ifndef FROM_BUILT
+  if (nfail < o.failures_allowed) {
+    // from an empty tree everything needed has to run: every needed statement whose producers all succeeded was started
+    bool all_started = true;
+    for (size_t i = 0; i < g_ref.size(); i++) {
+      if (g_ref[i].phony) continue; bool needed = false; for (size_t c = 0; c < cl.size(); c++) needed = needed || cl[c] == g_ref[i].outs[0]; if (!needed) continue;
+      std::vector<std::string> deps; bool blocked = has_id(r.failed, g_ref[i].ordinal) && false;
+      for (size_t q = 0; q < g_ref[i].reads.size(); q++) closure(g_ref[i].reads[q], &deps);
+      for (size_t q = 0; q < g_ref[i].order_only.size(); q++) closure(g_ref[i].order_only[q], &deps);
+      for (size_t d = 0; d < deps.size(); d++) { const RefEdge* p = ref_producer(deps[d]); if (p && !p->phony && p != &g_ref[i] && has_id(r.failed, p->ordinal)) blocked = true; }
+      if (!blocked && !has_id(r.started, g_ref[i].ordinal)) all_started = false;
+    }
+    VERIF_ASSERT(all_started, "C05: while the failure budget lasts every command that does not depend on a failed one is started");
+  }
+#endif
+  // (iii) no record for a failed command; successful ones are recorded: the next run (nothing fails) re-starts exactly the failed ones and what depended on them
+  {
+    BuildLog log; std::string err; log.Load(".ninja_log", &err);
+    bool ok_recorded = true, failed_unrecorded = true;
+    for (size_t i = 0; i < g_ref.size(); i++) {
+      BuildLog::LogEntry* e = log.LookupByOutput(g_ref[i].outs[0]);
+      if (has_id(r.finished_ok, g_ref[i].ordinal)) ok_recorded = ok_recorded && e != NULL;
+#ifndef FROM_BUILT
+      if (has_id(r.failed, g_ref[i].ordinal)) failed_unrecorded = failed_unrecorded && e == NULL;
+#endif
+    }
+    VERIF_ASSERT(ok_recorded, "C05: commands that completed successfully are recorded even when the build fails");
+    VERIF_ASSERT(failed_unrecorded, "C05: no build-log record is written for a failed command");
+  }
+  if (!r.failed.empty()) {
+    InvocationOpts o2 = o; o2.run.may_fail = false; o2.run.parallelism = 1;
+    InvocationResult r2 = invoke(o2);
+    bool retried = r2.added && r2.rc == 0;
+    for (size_t i = 0; i < r.failed.size(); i++) retried = retried && has_id(r2.started, r.failed[i]);
+    VERIF_ASSERT(retried, "C05: the next build retries every command that failed");
+    verif_reach("retried");
+  }
+  return 0;
+}
+#elif defined(MODE_SCHED)
+// ------------------------------------------------------------------------------------------------ C06 (and the C04 / C16 start-time monitors)
+extern "C" int harness_main() {
+  ir2c_global_ctors();
+  const Scenario* sc = &kScenarios[SCENARIO];
+  init_tree(sc);
+#ifdef FROM_BUILT
+  full_build(sc); user_operations(sc);
+#endif
+  InvocationOpts o; o.targets = symbolic_targets(sc, "request_target");
+  o.run.parallelism = 1 + verif_choice("jobs_minus_1", 3);
+  o.run.check_idle = true; o.run.check_inputs_fresh = true;
+#ifdef WITH_FAILURES
+  o.run.may_fail = true; o.failures_allowed = 1 + verif_choice("keep_going_minus_1", 2);
+#endif
+#ifdef WITH_JOBSERVER
+  o.token_pool = verif_choice("jobserver_tokens", 3); o.run.start_may_fail = true;
+#endif
+  InvocationResult r = invoke(o);
+  VERIF_ASSERT(r.parsed && r.added, "the scenario manifest parses and the targets are known");
+  observe(r);
+  VERIF_ASSERT(!r.stuck, "C06: ninja never gives up with 'stuck'");
+  VERIF_ASSERT(r.max_running <= (o.token_pool >= 0 ? o.token_pool + 1 : o.run.parallelism), "C06: the number of running commands never exceeds the limit");
+#ifdef WITH_JOBSERVER
+  VERIF_ASSERT(r.tokens_outstanding == 0, "C06: every jobserver token is returned by the time ninja exits, on every path");
+  verif_reach(r.rc == 0 ? "tokens-success" : "tokens-failure");
+#endif
+  if (r.rc == 0 && !r.up_to_date) { VERIF_ASSERT(r.started.size() == r.finished_ok.size(), "C06: a successful build has finished everything it started"); verif_reach("built"); }
+  if (r.max_running > 1) verif_reach("parallel");
+  return 0;
+}
+#elif defined(MODE_CRASH)
+// ------------------------------------------------------------------------------------------------ C07
+extern "C" int harness_main() {
+  ir2c_global_ctors();
+  const Scenario* sc = &kScenarios[SCENARIO];
+  init_tree(sc);
+#ifdef FROM_BUILT
+  full_build(sc); user_operations(sc);
+#endif
+  InvocationOpts o; o.targets = split_words(sc->targets); o.run.parallelism = 1 + verif_choice("jobs_minus_1", 2);
+#ifdef INTERRUPT
+  o.run.may_interrupt = true;
+  InvocationResult r = invoke(o);
+  observe(r);
+  if (r.interrupted) {
+    VERIF_ASSERT(r.rc == 130, "C07: an interrupted ninja exits with status 130");
+    bool cleaned = true;
+    for (size_t i = 0; i < r.events.size(); i++) if (r.events[i].compare(0, 8, "touched ") == 0) {
+      const RefEdge* e = ref_producer(r.events[i].substr(8));
+      for (size_t k = 0; e && k < e->outs.size(); k++) cleaned = cleaned && !g_tree->exists(e->outs[k]);
+    }
+    VERIF_ASSERT(cleaned, "C07: on interrupt the outputs a running command had already modified are removed");
+    VERIF_ASSERT(!g_tree->exists(".ninja_lock"), "C07: on interrupt the lock file is removed");
+    verif_reach("interrupted");
+  }
+#else
+  // the process dies right after the die_at-th persistence event of this invocation (0 = before the first)
+  g_persist_events = 0; g_die_at = verif_nondet("die_after_event", 0, VERIF_MAX_EVENTS);
+  long before = verif_vfs_events();
+  InvocationResult r = invoke(o);
+  bool died = g_dead;
+  g_dead = false; g_die_at = -1; verif_vfs_freeze(0);
+  g_tree->remove(".ninja_lock");        // whether the lock file survives is immaterial: ninja only touches and stats it
+  verif_reach(died ? "died" : "survived");
+  verif_obs(died);
+#endif
+  // recovery: the next invocation starts normally and, once it succeeds, the tree equals a clean build
+  InvocationOpts o2; o2.targets = o.targets; o2.run.parallelism = 1;
+  InvocationResult r2 = invoke(o2);
+  observe(r2);
+  VERIF_ASSERT(r2.parsed && r2.loaded && r2.added, "C07: the invocation after a killed or interrupted one starts normally");
+  VERIF_ASSERT(r2.rc == 0, "C07: the invocation after a killed or interrupted one succeeds");
+  if (r2.rc == 0) assert_clean_equal(o2.targets, "C07: once the recovery build succeeds the tree is identical to a clean build");
+  InvocationResult r3 = invoke(o2);
+  VERIF_ASSERT(r3.rc == 0 && r3.started.empty(), "C07: ... and the build after that has nothing to do");
+  verif_reach("recovered");
+  return 0;
+}
+#else
+// ------------------------------------------------------------------------------------------------ histories: C01 C02 C03 C04 C10 C11
 extern "C" int harness_main() {
   ir2c_global_ctors();
   const Scenario* sc = &kScenarios[SCENARIO];
@@ -38,25 +254,31 @@ extern "C" int harness_main() {
     o.targets = symbolic_targets(sc, "request_target");
     o.run.parallelism = 1 + verif_choice("jobs_minus_1", 2);
     o.failures_allowed = 1;
+#ifdef CHECK_C04
+    o.run.check_inputs_fresh = true;
+#endif
 #ifdef HISTORY_FAIL
     if (inv < HISTORY - 1) { o.run.may_fail = true; o.run.failed_touch = true; o.failures_allowed = 1 + verif_choice("keep_going_minus_1", 2); }
+#endif
+#ifdef CHECK_C03
+    load_reference(); MinRef mr; std::vector<int> expect = mr.expected(o.targets);
 #endif
     InvocationResult r = invoke(o);
     VERIF_ASSERT(r.parsed, "the scenario manifest parses");
     if (!r.parsed || !r.added) { verif_reach("add-target-error"); continue; }
-#ifdef DEBUG_EVENTS
-    printf("inv %d rc=%d up_to_date=%d err=%s\n", inv, r.rc, r.up_to_date, r.err.c_str());
-    for (size_t i = 0; i < r.events.size(); i++) printf("  %s\n", r.events[i].c_str());
-    for (size_t i = 0; i < g_tree->files.size(); i++) printf("  file %s exists=%d mtime=%ld content=%ld\n", g_tree->files[i].name.c_str(), g_tree->files[i].exists, (long)g_tree->files[i].mtime, g_tree->files[i].content);
-#endif
-    verif_obs(r.rc); verif_obs((long)r.started.size());
-    for (size_t i = 0; i < r.started.size(); i++) verif_obs(r.started[i]);
+    observe(r);
+    VERIF_ASSERT(!r.stuck, "C06: ninja never gives up with 'stuck'");
     if (r.rc == 0) {
       verif_reach(r.up_to_date ? "nothing-to-do" : "built");
       if (inv > 0 && !r.up_to_date) verif_reach("incremental-build");
-      A01(true, "C01: reached");
 #ifdef CHECK_C01
       assert_clean_equal(o.targets, "C01: after a successful build every requested target and everything it depends on equals the from-scratch build");
+#endif
+#ifdef CHECK_C03
+      if (r.failed.empty()) {
+        A03(same_set(r.started, expect), "C03: exactly the commands affected by the change are run");
+        verif_reach("minimality-checked");
+      }
 #endif
 #ifdef CHECK_C02
       InvocationOpts o2 = o; o2.run.may_fail = false;
@@ -70,3 +292,4 @@ extern "C" int harness_main() {
   }
   return 0;
 }
+#endif
